@@ -136,6 +136,17 @@ func opRun(fields []string) string {
 	return "AST " + v.VerifAst() + "\tCODE " + v.VerifBytecode() + "\tRES " + res
 }
 
+// opRunBig: like `run` with 50 times the step budget (20 M steps) — used to decide whether a DIVERGE of the
+// ordinary budget is a search that is merely long (exponential backtracking) or one that does not end
+func opRunBig(fields []string) string {
+	src, text := unhx(fields[0]), unhx(fields[1])
+	v, class := safeCompile(src)
+	if v == nil {
+		return "COMPILE " + class
+	}
+	return "RES " + withBudgetN(func() string { return canonMatches(v.Run(text)) }, 50)
+}
+
 func workerMain() {
 	in := bufio.NewReaderSize(os.Stdin, 1<<20)
 	out := bufio.NewWriter(os.Stdout)
